@@ -29,6 +29,7 @@ type c13mon struct {
 	causes      []string
 	mqttDisc    int // MQTT DISCONNECTs written so far
 	stalled     bool
+	unreachable bool
 }
 
 var c13causes = map[string]string{}
@@ -73,6 +74,9 @@ func (m *c13mon) After(g *gw.GW, ev string, sn []gw.SNOut, mq []gw.MQOut, setup 
 		if ev == gw.EvStall {
 			m.stalled = true
 		}
+		if ev == gw.EvUnreachable {
+			m.unreachable = true
+		}
 		for _, o := range mq {
 			if o.P.Type == refmqtt.DISCONNECT {
 				m.mqttDisc++
@@ -108,7 +112,8 @@ func (m *c13mon) After(g *gw.GW, ev string, sn []gw.SNOut, mq []gw.MQOut, setup 
 		if mqDisc != 0 {
 			add("C14", "mqtt-disconnect-on-sleep", "DISCONNECT with a sleep duration made the gateway send MQTT DISCONNECT")
 		}
-		if g.Returned {
+		if g.Returned && !m.unreachable {
+			// (when the reply cannot be sent the session legitimately ends with that error)
 			add("C13", "sleep-ended-session", "DISCONNECT with a sleep duration ended the session")
 		}
 		m.prevState = g.H.VState().String()
@@ -129,6 +134,10 @@ func (m *c13mon) After(g *gw.GW, ev string, sn []gw.SNOut, mq []gw.MQOut, setup 
 		wantDisc = 1 // the single reply to the client's own DISCONNECT
 	} else if wasConnected {
 		wantDisc = 1
+	}
+	if m.unreachable {
+		// nothing reaches the client any more: what the gateway tried to send it is not observable
+		wantDisc = nDisc
 	}
 	if nDisc != wantDisc {
 		add("C13", fmt.Sprintf("client-disconnect-count:%s:state=%s:got=%d", name, m.prevState, nDisc), "client received %d DISCONNECT datagrams, want %d", nDisc, wantDisc)
@@ -157,7 +166,7 @@ func (m *c13mon) After(g *gw.GW, ev string, sn []gw.SNOut, mq []gw.MQOut, setup 
 }
 
 func (m *c13mon) Key() string {
-	return fmt.Sprintf("prev=%s out=%d d=%d cause=%s stalled=%t", m.prevState, m.outstanding, m.depth, m.cause, m.stalled)
+	return fmt.Sprintf("prev=%s out=%d d=%d cause=%s stalled=%t unreachable=%t", m.prevState, m.outstanding, m.depth, m.cause, m.stalled, m.unreachable)
 }
 func (m *c13mon) Class() string {
 	if m.cause != "" {
@@ -188,6 +197,9 @@ func (m *c13mon) Next(g *gw.GW) []string {
 		if e == gw.EvStall && (m.stalled || g.Dialed == 0) {
 			continue
 		}
+		if e == gw.EvUnreachable && m.unreachable {
+			continue
+		}
 		if p, isB := brokerPkt(e); isB && p.Type == refmqtt.CONNACK && m.outstanding <= 0 {
 			continue
 		}
@@ -215,6 +227,7 @@ func c13alphabet() []string {
 		gw.EvC("PINGREQ", gw.Pingreq("c1")),
 		gw.EvAdvance(6 * time.Second),
 		gw.EvStall,
+		gw.EvUnreachable,
 	}
 }
 
@@ -275,9 +288,12 @@ func c13e2(prop string) []gw.E2Spec {
 				add("C13", fmt.Sprintf("e2:client-disconnect-count:%s:got=%d", cause, nDisc), "client received %d DISCONNECT datagrams, want %d", nDisc, wantDisc)
 			}
 			mqDisc := 0
-			for _, o := range mq {
+			for i, o := range mq {
 				if o.P.Type == refmqtt.DISCONNECT {
 					mqDisc++
+					if i != len(mq)-1 {
+						add("C14", "e2:packet-after-mqtt-disconnect:"+mq[i+1].P.Name(), "the gateway wrote %s to the broker after its MQTT DISCONNECT (the DISCONNECT must be the last packet before the connection is closed)", mq[i+1].P.Name())
+					}
 				}
 			}
 			if want := map[bool]int{true: 1, false: 0}[cause == "client-DISCONNECT"]; mqDisc != want {
@@ -297,7 +313,10 @@ func c13e2(prop string) []gw.E2Spec {
 	mk := func(name string, setup []string, horizon time.Duration, wantDisc int, cause string, inject ...string) gw.E2Spec {
 		return gw.E2Spec{Name: "e2:" + name, Cfg: cfg, Setup: setup, Inject: inject, Then: settle, TimerChoices: true, Horizon: horizon, Check: check(cause, wantDisc)}
 	}
+	asleep := append(append([]string{}, active...), gw.EvC("DISCONNECT(5)", gw.Disconnect(5)))
 	return []gw.E2Spec{
+		mk("client-DISCONNECT|sleep pinger just started by a wake-up", asleep, time.Second, 1, "client-DISCONNECT", gw.EvC("PINGREQ(wake)", gw.Pingreq("c1")), gw.EvC("DISCONNECT(0)", gw.Disconnect(0))),
+		mk("client-DISCONNECT|sleep pinger just started by DISCONNECT(d)", active, time.Second, 2 /* one reply to each of the client's two DISCONNECTs */, "client-DISCONNECT", gw.EvC("DISCONNECT(5)", gw.Disconnect(5)), gw.EvC("DISCONNECT(0)", gw.Disconnect(0))),
 		mk("shutdown|retry-timer(pending q1)", pendingQ1, 7*time.Second, 1, "gateway-shutdown", gw.EvShutdown),
 		mk("client-DISCONNECT|retry-timer(pending q1)", pendingQ1, 7*time.Second, 1, "client-DISCONNECT", gw.EvC("DISCONNECT(0)", gw.Disconnect(0))),
 		mk("broker-closes|retry-timer(pending REGISTER)", pendingReg, 7*time.Second, 1, "broker-closes", gw.EvBrokerClose),
@@ -315,7 +334,7 @@ func runTermination(t *testing.T, prop, test string) {
 	}
 	rep := explore.NewReport(prop, "model_checking")
 	gw.BFSCheck(rep, specs, gw.BFSOpts{Test: test}, 240, 1500)
-	rep.Coverage["rule"] = "BFS (depth 4, thorough 5) over a protocol alphabet that reaches disconnected / connecting (auth, will) / active / asleep with and without pinger / awake / pending client QoS 1 / pending broker QoS 1 and 2 / pending gateway REGISTER / an expired sleep period (6 s pass) / a send to a broker that has stopped reading (blocked write); in every reached state every termination cause (gateway shutdown, client DISCONNECT, broker close, broker garbage, undecodable datagram, unsupported packet, going to sleep) is injected, 300 ms of virtual time pass, and the monitor checks: return within one poll interval, broker connection closed, DISCONNECT datagrams to the client, MQTT DISCONNECT only for the client's plain DISCONNECT, no session goroutine alive after firing all remaining timers"
+	rep.Coverage["rule"] = "BFS (depth 4, thorough 5) over a protocol alphabet that reaches disconnected / connecting (auth, will) / active / asleep with and without pinger / awake / pending client QoS 1 / pending broker QoS 1 and 2 / pending gateway REGISTER / an expired sleep period (6 s pass) / a send to a broker that has stopped reading (blocked write) / a client that has become unreachable (sends to it fail); in every reached state every termination cause (gateway shutdown, client DISCONNECT, broker close, broker garbage, undecodable datagram, unsupported packet, going to sleep) is injected, 300 ms of virtual time pass, and the monitor checks: return within one poll interval, broker connection closed, DISCONNECT datagrams to the client, MQTT DISCONNECT only for the client's plain DISCONNECT, no session goroutine alive after firing all remaining timers"
 	explore.RunScenarios(rep, gw.Scenarios(t, c13e2(prop)), explore.ScenarioOpts{Test: test, QuickBound: 2, ThoroughFrom: 2, ThoroughMax: 3,
 		QuickBudget: 90 * time.Second, ThoroughBudge: 8 * time.Minute})
 	rep.Assumptions = []string{"BFS part: default schedule (the cause racing with an in-flight event is explored by the E2 part of C13 where present)", "virtual time; pending send time is zero in the in-memory model"}
